@@ -6,7 +6,10 @@ import ast
 import itertools
 import math
 
-from ..core import AnalysisError, body_nodes, dotted, key_text, kwarg, stmts_of, unparse
+from ..core import AnalysisError, body_nodes, dotted, key_text, kwarg, params, stmts_of, unparse
+from ..flow import stale_derived
+from ..normal import inline_temps
+from ..pattern import find, pmatch
 
 LAT = 'tenpy/models/lattice.py'
 CATS = ['nearest_neighbors', 'next_nearest_neighbors', 'next_next_nearest_neighbors',
@@ -258,6 +261,75 @@ def check_index_maps(prog, rep):
                       'mps2lat_idx reads', g.lineno)
 
 
+def check_stale_masks(prog, rep):
+    """lattice.py: a mask derived from coordinate arrays is applied to those arrays only in the
+    state it was derived from (the boundary filter of possible_couplings must see the corrected
+    coordinates: the MPS index is computed from them)"""
+    m = prog.module(LAT)
+    total = 0
+    for q, f in m.functions.items():
+        hits, pairs = stale_derived(f)
+        total += pairs
+        if pairs:
+            rep.instance('GEOM-stale-mask', {'function': q, 'mask_uses': pairs})
+        seen = set()
+        for d, s_, u, X, mname in hits:
+            if (id(d), id(s_)) in seen:
+                continue
+            seen.add((id(d), id(s_)))
+            rep.violation('GEOM-stale-mask', m, q, 'stale:%s:%s' % (mname, X),
+                          '`%s` is derived from `%s` (`%s`), then `%s` changes `%s` in place, and '
+                          'afterwards `%s[%s]` is used (`%s`): the selection was made on the old '
+                          'coordinates' % (mname, X, key_text(d)[:60], key_text(s_)[:50], X, X,
+                                           mname, key_text(u)[:50]), s_.lineno)
+    return total
+
+
+# attributes whose length is another attribute (established in __init__ of the class)
+LENGTH_OF = {'self.species_names': 'self.N_species'}
+
+
+def check_radix(prog, rep):
+    """MultiSpeciesLattice: unit-cell index = simple_u * N_species + species_idx everywhere the
+    combination is written out (the class inlines simple_u_to_species_u in several places): the
+    minor index runs over the species, so the radix must be the number of species."""
+    m = prog.module(LAT)
+    n = 0
+    for q, f0 in m.functions.items():
+        if not q.startswith('MultiSpeciesLattice.'):
+            continue
+        f = inline_temps(f0)
+        minor = {}
+        for x in ast.walk(f):
+            if isinstance(x, (ast.For, ast.comprehension)):
+                e = pmatch('enumerate($$seq)', x.iter)
+                if e and isinstance(x.target, ast.Tuple) and isinstance(x.target.elts[0], ast.Name):
+                    ln = LENGTH_OF.get(unparse(e['$$seq']))
+                    if ln:
+                        minor[x.target.elts[0].id] = ln
+                e = pmatch('range($$n)', x.iter)
+                if e and isinstance(x.target, ast.Name) and unparse(e['$$n']) == 'self.N_species':
+                    minor[x.target.id] = 'self.N_species'
+        for p_ in params(f0):
+            if p_ in ('species_idx', 'species_index'):
+                minor[p_] = 'self.N_species'
+        for x in ast.walk(f):
+            e = pmatch('$$major * $$radix + $s', x) if isinstance(x, ast.BinOp) else None
+            if e and e['$s'] in minor:
+                n += 1
+                rep.instance('GEOM-radix', {'function': q, 'expr': unparse(x)})
+                if unparse(e['$$radix']) != minor[e['$s']] and \
+                        unparse(e['$$major']) != minor[e['$s']]:
+                    rep.violation('GEOM-radix', m, q, 'radix:' + unparse(x)[:40],
+                                  '`%s`: the minor index `%s` runs over %s values, so the major '
+                                  'index must be multiplied by %s (as in simple_u_to_species_u), '
+                                  'not by `%s`: different (simple site, species) pairs collide / '
+                                  'indices leave the unit cell' %
+                                  (unparse(x), e['$s'], minor[e['$s']], minor[e['$s']],
+                                   unparse(e['$$radix'])), x.lineno)
+    return n
+
+
 def run(prog, rep, tier):
     rep.rule('GEOM-neighbors', 'for every lattice class with literal basis / positions / pair '
              'lists: all pairs of a category have one Euclidean length, category k is the k-th '
@@ -266,9 +338,16 @@ def run(prog, rep, tier):
              'tables with a whitelisted constant folder)')
     rep.rule('GEOM-override-pairs / ordering / index-maps', 'inverse-pair methods are overridden '
              'together; ordering falls through; order setter recomputes the inverse permutation')
+    rep.rule('GEOM-stale-mask', 'a mask derived from an array is not applied to that array after '
+             'an in-place update of it (def-store-use path on the CFG)')
+    rep.rule('GEOM-radix', 'mixed-radix index combinations use the range of the minor index')
     n = check_geometry(prog, rep)
     check_override_pairs(prog, rep)
     check_index_maps(prog, rep)
+    if check_stale_masks(prog, rep) < 4:
+        raise AnalysisError('GEOM-stale-mask: the mask uses of possible_couplings were not found')
+    if check_radix(prog, rep) < 5:
+        raise AnalysisError('GEOM-radix: the species index combinations were not found')
     rep.floor('GEOM-neighbors', 20)
     rep.assumptions += [
         'NLegLadder is excluded: nearest_neighbors = rung_NN + leg_NN is topological by '
